@@ -241,6 +241,21 @@ macro_rules! field_impl {
                             #[cfg(feature = "ark")]
                             "ser" => { let mut v = Vec::new(); x.serialize_compressed(&mut v).unwrap(); tohex(&v) }
                             #[cfg(feature = "ark")]
+                            "ser_drip" => {
+                                // a writer taking one byte per `write` call, and a buffer that is too short (must be an error)
+                                struct W(Vec<u8>);
+                                impl ark_std::io::Write for W {
+                                    fn write(&mut self, b: &[u8]) -> ark_std::io::Result<usize> { if b.is_empty() { return Ok(0); } self.0.push(b[0]); Ok(1) }
+                                    fn flush(&mut self) -> ark_std::io::Result<()> { Ok(()) }
+                                }
+                                let mut w = W(Vec::new());
+                                let mut small = [0u8; 7];
+                                let mut sl: &mut [u8] = &mut small[..];
+                                if x.serialize_compressed(&mut w).is_err() { "err-write".into() }
+                                else if x.serialize_compressed(&mut sl).is_ok() { "short-buffer-accepted".into() }
+                                else { tohex(&w.0) }
+                            }
+                            #[cfg(feature = "ark")]
                             "ser_unc" => { let mut v = Vec::new(); x.serialize_uncompressed(&mut v).unwrap(); tohex(&v) }
                             #[cfg(feature = "ark")]
                             "bigint_bytes" => tohex(&x.into_bigint().to_bytes_le()[..N8]),
